@@ -19,6 +19,7 @@ KINDS = ["actionx", "actionx", "welspecs", "compdat", "wconprod", "wconinje", "w
 @st.composite
 def case_strategy(draw):
     m = MG.Model()
+    m.action_body = BODY
     nb = draw(st.integers(2, 5))
     blocks = []
     snaps = []
@@ -131,7 +132,9 @@ class C04(Check):
             "bodies inlined, '?' expanded per matching well, at the end of block n in application order; state n is identical up to the "
             "ACTIONX_WELL_EVENT bit; every state j < n_first is identical to its dump before the first application.  Non-trivial: a body "
             "keyword names a well/group existing at n, n is not the last step; labels count '?' use and strict subsets.")
-    ASSUMPTIONS = ["WPIMULT and connection-level WELOPEN / COMPDAT bodies (per-report-step semantics, exempted by the statement) are not generated",
+    ASSUMPTIONS = ["WPIMULT and connection-level WELOPEN / COMPDAT bodies (per-report-step semantics, exempted by the statement) are not generated "
+                   "(tried: a COMPDAT body re-opening the only, shut, connection of a well differs in the well status at step n - the exempted "
+                   "automatic shut-in class - so COMPDAT bodies were taken out again)",
                    "PYACTION is not exercised (no embedded Python in this build)", "SimulatorUpdate contents are not asserted"]
     EXAMPLES = {"quick": 150, "thorough": 2500}
     MIN_EVALS = {"quick": 500, "thorough": 10000}
